@@ -39,6 +39,9 @@ type APlan struct {
 	Pos       int     `json:"pos"`
 	Val       int     `json:"val"`
 	Clock     []int64 `json:"clock"` // seconds after the epoch at which Attest is called (non-decreasing)
+	// CritExt: the device certificate carries an unknown critical extension (chain validation reports it before
+	// anything else; a device certificate that does not chain must be refused all the same)
+	CritExt bool `json:"crit_ext,omitempty"`
 }
 
 var digestInfo = map[string][2][]byte{ // with NULL, without NULL
@@ -73,6 +76,7 @@ func genA(r *sim.Rng, tier string) any {
 	}
 	p.Pos = r.Intn(4096)
 	p.Val = r.Intn(256)
+	p.CritExt = r.Bool(0.12)
 	p.LapseSec = int64(2*r.Range(50, 5000) + 1)
 	switch r.Intn(4) {
 	case 0:
@@ -296,6 +300,9 @@ func execA(t *testing.T, raw json.RawMessage) *sim.Outcome {
 	}
 	devT := &x509.Certificate{SerialNumber: big.NewInt(0xf9), Subject: pkix.Name{CommonName: "Yubico PIV Attestation"}, NotBefore: nb, NotAfter: na,
 		IsCA: true, BasicConstraintsValid: true, KeyUsage: x509.KeyUsageCertSign | x509.KeyUsageDigitalSignature}
+	if p.CritExt {
+		devT.ExtraExtensions = []pkix.Extension{{Id: []int{1, 3, 6, 1, 4, 1, 55555, 1, 1}, Critical: true, Value: []byte{0x05, 0x00}}}
+	}
 	var parent *x509.Certificate
 	var parentKey crypto.Signer
 	switch p.Chain {
@@ -437,9 +444,14 @@ func execA(t *testing.T, raw json.RawMessage) *sim.Outcome {
 				!now.Before(rootFrom) && !now.After(rootTo)
 			sigOK := rsaPriv != nil && wellFormed && labelClass == "rsa"
 			undecided := rsaPriv != nil && wellFormed && labelClass == "undecided"
+			if p.CritExt && chainOK && sigOK {
+				// issued by a root and inside every window, but with an extension chain validation cannot handle:
+				// whether that still "chains" is not settled by the statement
+				undecided, sigOK = true, false
+			}
 			expect := chainOK && sigOK
 			got := aerr == nil
-			desc := fmt.Sprintf("bits=%d chain=%s window=%s t=+%ds hash=%s label=%s variant=%s mutation=%s", p.Bits, p.Chain, p.DevWindow, at, p.Hash, p.Label, p.Variant, p.Mutation)
+			desc := fmt.Sprintf("bits=%d chain=%s window=%s t=+%ds hash=%s label=%s variant=%s mutation=%s critical_ext=%v", p.Bits, p.Chain, p.DevWindow, at, p.Hash, p.Label, p.Variant, p.Mutation, p.CritExt)
 			o.Logf("attest %s -> accepted=%v expected=%v", desc, got, expect)
 			sigParts = append(sigParts, fmt.Sprintf("%d/%s/%s/%v/%s/%s/%s/%s/%v", p.Bits, p.Chain, p.DevWindow, chainOK, p.Hash, p.Label, p.Variant, p.Mutation, got))
 			switch {
